@@ -389,6 +389,11 @@ def same_value(a, b, depth=0):
             return True
         if isinstance(a, collections.abc.Iterator):
             return True  # cannot compare one-shot results
+        if hasattr(type(a), "__parser__") and isinstance(getattr(a, "__dict__", None), dict):
+            # attribute-based data class: its own __eq__ is not NaN-aware
+            da = {k: x for k, x in a.__dict__.items() if not k.startswith("__")}
+            db = {k: x for k, x in b.__dict__.items() if not k.startswith("__")}
+            return set(da) == set(db) and all(same_value(da[k], db[k], depth + 1) for k in da)
         if type(a).__eq__ is object.__eq__ or type(a).__module__.endswith("vmon.values"):
             d1, d2 = getattr(a, "__dict__", None), getattr(b, "__dict__", None)
             if isinstance(d1, dict) and isinstance(d2, dict) and not isinstance(a, type):
